@@ -1104,8 +1104,27 @@ pub(crate) fn m_inline_tags() {
     assert!(find("zz") == vec![RichAnnotation::Emphasis, RichAnnotation::Preformat(true)], "emphasis inside a continued <pre> line: {:?}", find("zz"));
 }
 
+/// The rows of every section of a table (thead, tbody, tfoot) are rendered, in document order.
+pub(crate) fn m_table_sections() {
+    let _which: u8 = kani::any();
+    let html: &[u8] = b"<table><thead><tr><td>headcell</td></tr></thead><tbody><tr><td>bodycell</td></tr></tbody><tfoot><tr><td>footcell</td></tr></tfoot></table>";
+    let out = crate::config::plain().string_from_read(html, 40).expect("renders");
+    let p = |w: &str| out.find(w);
+    assert!(p("headcell").is_some() && p("bodycell").is_some() && p("footcell").is_some(), "a table section is missing: {:?}", out);
+    assert!(p("headcell") < p("bodycell") && p("bodycell") < p("footcell"), "table sections out of order: {:?}", out);
+}
+
+/// A table's caption is part of the document text (demonstrates the recorded known finding).
+pub(crate) fn m_table_caption() {
+    let _which: u8 = kani::any();
+    let html: &[u8] = b"<table><caption>captiontext</caption><tr><td>cell</td></tr></table>";
+    let out = crate::config::plain().string_from_read(html, 40).expect("renders");
+    assert!(out.contains("cell"), "cell missing: {:?}", out);
+    assert!(out.contains("captiontext"), "the caption's text is dropped: {:?}", out);
+}
+
 crate::verif_common::registry! {
-    m_inline_tags, m_colspan_huge, m_frag_in_word, m_ol_prefix_width, m_dom_reuse, m_columns, m_prefix_blank_lines, m_shallow_empty, m_link_footnotes, m_strike_affix, m_frag_nested, m_dom_children, m_cell_unwind, m_routes_width, m_insert_child, m_ol_numbering, m_prefix_width, m_into_cells, m_table_col_width, m_table_alloc,
+    m_table_sections, m_table_caption, m_inline_tags, m_colspan_huge, m_frag_in_word, m_ol_prefix_width, m_dom_reuse, m_columns, m_prefix_blank_lines, m_shallow_empty, m_link_footnotes, m_strike_affix, m_frag_nested, m_dom_children, m_cell_unwind, m_routes_width, m_insert_child, m_ol_numbering, m_prefix_width, m_into_cells, m_table_col_width, m_table_alloc,
     r1_cascade_pairs, r1_cascade_triples, r2_specificity_order, r2_specificity_add,
     r3_ol_prefix_total, r4_ol_prefix_is_max,
     r9_tree_map_reduce_order, r12_config_plumbing, r12_width_zero,
